@@ -114,6 +114,23 @@ fn gen(r: &mut Rng, tier: &Tier, out: &mut Vec<String>) {
     for sp in [PayloadSize::Zero, PayloadSize::NonZero, PayloadSize::Any] { for op in [PayloadSize::Zero, PayloadSize::NonZero, PayloadSize::Any] {
         let mut s = b.clone(); s.version = sv; s.pclass = sp; let mut o = b.clone(); o.version = ov; o.pclass = op; push_t(out, &s, &o);
     }}}}
+    // quirks that depend on the IP version: all ordered sub-lists of (df, id+, flow, ecn, 0+) on both sides x 3 x 3 versions
+    {
+        use huginn_net_db::tcp::Quirk;
+        let qs = [Quirk::Df, Quirk::NonZeroID, Quirk::FlowID, Quirk::Ecn, Quirk::MustBeZero];
+        let subs: Vec<Vec<Quirk>> = (0..32u32).map(|m| qs.iter().enumerate().filter(|(i, _)| m >> i & 1 == 1).map(|(_, q)| q.clone()).collect()).collect();
+        for sv in [IpVersion::V4, IpVersion::V6, IpVersion::Any] { for ov in [IpVersion::V4, IpVersion::V6, IpVersion::Any] {
+            for sq in &subs { for oq in &subs {
+                if !tier.thorough && sq.len() + oq.len() > 6 { continue; }
+                let mut s = b.clone(); s.version = sv; s.quirks = sq.clone(); let mut o = b.clone(); o.version = ov; o.quirks = oq.clone(); push_t(out, &s, &o);
+            }}
+        }}
+        // reversed order is another list
+        let mut s = b.clone(); s.version = IpVersion::Any; s.quirks = vec![Quirk::Ecn, Quirk::Df, Quirk::FlowID];
+        for ov in [IpVersion::V4, IpVersion::V6] { for oq in [vec![Quirk::Ecn, Quirk::FlowID], vec![Quirk::FlowID, Quirk::Ecn], vec![Quirk::Ecn, Quirk::Df], vec![Quirk::Df, Quirk::Ecn]] {
+            let mut o = b.clone(); o.version = ov; o.quirks = oq; push_t(out, &s, &o);
+        }}
+    }
     // header lists: exhaustive up to length 2 (quick) / 3 (thorough); a seeded sample of the length-3 / length-4 product
     let hb = r_http("1:-:-:-");
     let (ex, sm) = if tier.thorough { (3, 4) } else { (2, 3) };
